@@ -4,6 +4,7 @@ import (
 	"bytes"
 	"encoding/json"
 	"fmt"
+	htmltemplate "html/template"
 	"io/ioutil"
 	"mime/multipart"
 	"net/http"
@@ -14,6 +15,7 @@ import (
 	"strings"
 	"testing"
 	"time"
+	"unicode/utf8"
 
 	"github.com/Cloud-Foundations/keymaster/lib/paths"
 	"github.com/Cloud-Foundations/keymaster/lib/webapi/v0/proto"
@@ -737,6 +739,70 @@ func TestVerif_C18(t *testing.T) {
 			}
 		}
 	}
+	// ---- html/template's escapers, context by context, against the model (render_field)
+	var ecases, eidx []string
+	{
+		ctxT := []struct {
+			name, pre, post string
+			code            int
+		}{{"text", "<p>", "</p>", 0}, {"attr-dq", `<input value="`, `">`, 1}, {"attr-unquoted", `<input value=`, ` size=18>`, 2}, {"url-attr-rooted", `<a href="/profile/`, `">x</a>`, 3}}
+		var inputs []string
+		inputs = append(inputs, payloads...)
+		for b := 0; b < 128; b++ {
+			inputs = append(inputs, string([]byte{byte(b)}), "a"+string([]byte{byte(b)})+"z")
+		}
+		inputs = append(inputs, "", "alice", "x onx=1", "a=b", "é<ü>", "  ", "&amp;&lt;&#34;", "+1 555", "a\tb\nc\rd\fe\vf", "``", "日本語\"'")
+		rng := verifRand()
+		for i := 0; i < 300; i++ {
+			n := 1 + rng.Intn(12)
+			bs := make([]byte, n)
+			for j := range bs {
+				const alphabet = " \t\n\"'&+<=>`\x00azAZ09-_/:;%?#"
+				bs[j] = alphabet[rng.Intn(len(alphabet))]
+			}
+			inputs = append(inputs, string(bs))
+		}
+		for _, cx := range ctxT {
+			tpl, err := htmltemplate.New("c").Parse(cx.pre + "{{.}}" + cx.post)
+			if err != nil {
+				t.Fatal(err)
+			}
+			for _, in := range inputs {
+				var buf bytes.Buffer
+				if err := tpl.Execute(&buf, in); err != nil {
+					continue
+				}
+				out := buf.String()
+				if !strings.HasPrefix(out, cx.pre) || !strings.HasSuffix(out, cx.post) {
+					res.hit(verifHit{Key: "C18:escaper:" + cx.name + ":frame", Oracle: "the template text around a field is not what was written", What: fmt.Sprintf("%q rendered %q", in, out), Case: in})
+					continue
+				}
+				field := out[len(cx.pre) : len(out)-len(cx.post)]
+				bad := "\"'<>"
+				if cx.code == 2 {
+					bad = "\"'<>= \t\n\r\f\v`"
+				}
+				res.eval("escaper|"+cx.name+"|"+in, strings.ContainsAny(in, bad))
+				res.bump("escaper_renderings:" + cx.name)
+				if strings.ContainsAny(field, bad) || (cx.code == 2 && field == "") {
+					res.hit(verifHit{Key: "C18:escaper:" + cx.name, Oracle: "a rendered field contains a byte that ends its context", What: fmt.Sprintf("%s context: %q rendered as %q", cx.name, in, field), Case: map[string]interface{}{"context": cx.name, "input": in}})
+				}
+				exact := cx.code <= 1
+				if cx.code == 2 {
+					exact = utf8.ValidString(in)
+					for _, r := range in {
+						if 0xfdd0 <= r && r <= 0xfdef || 0xfff0 <= r && r <= 0xffff {
+							exact = false
+						}
+					}
+				}
+				if exact {
+					ecases = append(ecases, fmt.Sprintf("(%d, %s, %s)", cx.code, coqPacked([]byte(in)), coqPacked([]byte(field))))
+					eidx = append(eidx, fmt.Sprintf("context=%s input=%q rendered=%q", cx.name, in, field))
+				}
+			}
+		}
+	}
 	var sb strings.Builder
 	sb.WriteString(coqCaseHeader)
 	sb.WriteString("From KM Require Import Base.Cases Model.Html.\nOpen Scope N_scope.\n")
@@ -747,11 +813,16 @@ func TestVerif_C18(t *testing.T) {
 	sb.WriteString("Definition fcases : list (bool * bool * N * bs * bs * N * bs * bool) := [\n " + strings.Join(fcases, ";\n ") + "].\n")
 	sb.WriteString("Definition fbad (c : bool * bool * N * bs * bs * N * bs * bool) : bool :=\n  let '(admin, accept, code, status, msg, ct, body, doc) := c in\n  let r := failure_response admin accept code status msg [Trusted body] in\n  negb ((ct_code (r_ctype r) =? ct) && bs_eqb (render (r_body r)) body && Bool.eqb (rendered_as_document r) doc).\n")
 	sb.WriteString("Definition c18_failure_mismatches := Eval vm_compute in mismatches fbad fcases.\nPrint c18_failure_mismatches.\nDefinition c18_nfcases := Eval vm_compute in length fcases.\nPrint c18_nfcases.\n")
+	sb.WriteString("(* (context 0 text 1 quoted attribute 2 unquoted attribute, field value, bytes html/template rendered for it) *)\n")
+	sb.WriteString("Definition ecases : list (N * bs * bs) := [\n " + strings.Join(ecases, ";\n ") + "].\n")
+	sb.WriteString("Definition ebad (c : N * bs * bs) : bool :=\n  let '(k, s, out) := c in\n  let cx := if k =? 0 then CtxText else if k =? 1 then CtxAttrQuoted else CtxAttrUnquoted in\n  negb (bs_eqb (render_field cx s) out).\n")
+	sb.WriteString("Definition c18_escaper_mismatches := Eval vm_compute in mismatches ebad ecases.\nPrint c18_escaper_mismatches.\nDefinition c18_necases := Eval vm_compute in length ecases.\nPrint c18_necases.\n")
 	if err := ioutil.WriteFile(filepath.Join(verifOut(), "CasesC18.v"), []byte(sb.String()), 0644); err != nil {
 		t.Fatal(err)
 	}
 	ioutil.WriteFile(filepath.Join(verifOut(), "CasesC18.idx"), []byte(strings.Join(idx, "\n")), 0644)
 	ioutil.WriteFile(filepath.Join(verifOut(), "CasesC18f.idx"), []byte(strings.Join(fidx, "\n")), 0644)
+	ioutil.WriteFile(filepath.Join(verifOut(), "CasesC18e.idx"), []byte(strings.Join(eidx, "\n")), 0644)
 	if len(cases) == 0 {
 		res.hit(verifHit{Key: "C18:harness:no-input", Oracle: "harness", What: "no page with the hidden input was produced", Case: ""})
 	}
